@@ -3072,9 +3072,21 @@ impl FunctionCompiler<'_> {
                     .fcmp(FloatCC::GreaterThanOrEqual, lhs, rhs),
                 hir::BinaryOp::Eq => self.builder.ins().fcmp(FloatCC::Equal, lhs, rhs),
                 hir::BinaryOp::Ne => self.builder.ins().fcmp(FloatCC::NotEqual, lhs, rhs),
-                hir::BinaryOp::BAnd => self.builder.ins().band(lhs, rhs),
-                hir::BinaryOp::BOr => self.builder.ins().bor(lhs, rhs),
-                hir::BinaryOp::Xor => self.builder.ins().bxor(lhs, rhs),
+                hir::BinaryOp::BAnd | hir::BinaryOp::BOr | hir::BinaryOp::Xor => {
+                    // the bitwise operators act on the bit pattern of the float, so they are
+                    // done in integer registers. (the vector forms `andps`/`orps`/`xorps` get
+                    // 4 or 8 byte loads folded into their 16 byte memory operand, which faults
+                    // when the float is not 16 byte aligned, e.g. `x & y` on two `f32` locals)
+                    let int_ty = ty.ty.as_int();
+                    let lhs = self.builder.ins().bitcast(int_ty, MemFlags::new(), lhs);
+                    let rhs = self.builder.ins().bitcast(int_ty, MemFlags::new(), rhs);
+                    let res = match op {
+                        hir::BinaryOp::BAnd => self.builder.ins().band(lhs, rhs),
+                        hir::BinaryOp::BOr => self.builder.ins().bor(lhs, rhs),
+                        _ => self.builder.ins().bxor(lhs, rhs),
+                    };
+                    self.builder.ins().bitcast(ty.ty, MemFlags::new(), res)
+                }
                 hir::BinaryOp::LShift | hir::BinaryOp::RShift => unreachable!(),
                 hir::BinaryOp::LAnd | hir::BinaryOp::LOr => unreachable!(),
             }
